@@ -228,18 +228,18 @@ type opState struct {
 }
 
 type call struct {
-	kind     string // start | shutdown
-	name     string
-	callSeq  uint64
-	callT    time.Time
-	ret      bool
-	retSeq   uint64
-	retT     time.Time
-	err      string
-	notified bool // start: NotifyStartedFunc fired from this call
+	kind      string // start | shutdown
+	name      string
+	callSeq   uint64
+	callT     time.Time
+	ret       bool
+	retSeq    uint64
+	retT      time.Time
+	err       string
+	notified  bool // start: NotifyStartedFunc fired from this call
 	notifySeq uint64
-	ctx      *common.Ctx
-	inflight int // shutdown: handlers in flight at return
+	ctx       *common.Ctx
+	inflight  int // shutdown: handlers in flight at return
 }
 
 type run struct {
@@ -251,18 +251,18 @@ type run struct {
 	pc  *simnet.PacketConn
 	res *core.Result
 
-	ops       map[string]*opState
-	opList    []*opState
-	calls     []*call
-	notified  bool
-	notifyN   int
+	ops        map[string]*opState
+	opList     []*opState
+	calls      []*call
+	notified   bool
+	notifyN    int
 	shutCalled bool
-	cliClosed map[int]uint64 // client index -> seq at which it closed/reset its conn
-	cliFin    []bool
-	lifeFin   bool
-	shutBFin  bool
-	entered   int
-	exited    int
+	cliClosed  map[int]uint64 // client index -> seq at which it closed/reset its conn
+	cliFin     []bool
+	lifeFin    bool
+	shutBFin   bool
+	entered    int
+	exited     int
 }
 
 //go:norace
